@@ -185,6 +185,7 @@ def run_dependencies(r):
     check_class_hooks(r, pre, reach | entries)
     check_narrow_casts(r, pre + "NUM", reach | entries)
     check_skipping_breaks(r, pre + "BREAK", reach | entries)
+    check_integer_degree(r, pre + "INTDEG", reach | entries)
     if any(q.startswith("pyrepseq.nn.") and q.rsplit(".", 1)[1] in ("_to_triplets", "kdtree", "_kdtree_leven") for q in reach):
         check_start_method(r, pre + "START-METHOD")
         ran.append("start-method")
@@ -663,3 +664,108 @@ def check_skipping_breaks(r, rule, functions):
                          where_of(r.P, s.func, node), expected="an element that is filtered out is skipped (continue); the remaining elements are still processed",
                          found=f"break when {show(cond, 100)}: the elements of {show(lp.iterable, 60)} after the first such element are never processed, and the iteration order is not an order on that condition",
                          key=f"skipping break {q.rsplit('.', 1)[1]} {show(cond, 80)}", lint=True)
+
+
+_FLOAT_CALLS = {"builtins.float", "numpy.float64", "numpy.log", "numpy.log2", "numpy.log10", "numpy.sqrt", "numpy.exp", "numpy.mean", "numpy.average", "numpy.std", "numpy.var", "math.log", "math.sqrt",
+                "math.exp", "numpy.divide", "numpy.true_divide", "numpy.reciprocal", "scipy.special.zeta", "numpy.random.rand", "numpy.random.random", "numpy.linspace", "numpy.logspace"}
+_EXACT_CALLS = {"builtins.len", "builtins.int", "builtins.round", "math.comb", "math.factorial", "math.prod", "operator.index", "math.isqrt"}
+_THROUGH_CALLS = {"numpy.sum", "numpy.max", "numpy.min", "numpy.abs", "numpy.asarray", "numpy.array", "numpy.cumsum", "numpy.sort", "numpy.int64", "numpy.prod", "numpy.cumprod", "builtins.sum",
+                  "builtins.max", "builtins.min", "builtins.abs", "numpy.count_nonzero", "numpy.bincount", "numpy.atleast_1d", "numpy.ravel", "numpy.multiply", "numpy.dot"}
+
+
+def _int_degree(t, memo):
+    """(kind, degree) of an arithmetic term: kind 'float' (floating point: loses precision, never wraps), 'exact' (Python integers: unbounded)
+    or 'np' (a fixed-width NumPy integer, or a value of unknown kind taken from the arguments); degree = how many argument-sized quantities are
+    multiplied together in it."""
+    from .terms import is_const, strip
+    t = strip(t)
+    if not isinstance(t, tuple):
+        return ("exact", 0)
+    if t in memo:
+        return memo[t]
+    h = head(t)
+    out = ("np", 1)
+    if h == "const":
+        out = ("float", 0) if isinstance(t[2], float) else ("exact", 0)
+    elif h == "bin":
+        op, (ka, da), (kb, db) = t[1], _int_degree(t[2], memo), _int_degree(t[3], memo)
+        join = "float" if "float" in (ka, kb) else "np" if "np" in (ka, kb) else "exact"
+        if op == "/":
+            out = ("float", 0)
+        elif op == "*" or op == "@":
+            out = (join, da + db)
+        elif op == "**":
+            e = strip(t[3])
+            if is_const(e) and isinstance(e[2], int) and not isinstance(e[2], bool) and e[2] >= 0:
+                out = (ka, da * e[2])
+            else:
+                out = ("float", 0)
+        elif op in ("+", "-"):
+            out = (join, max(da, db))
+        elif op in ("//", "%", "<<", ">>", "&", "|", "^"):
+            out = (join, da)
+    elif h == "un":
+        out = _int_degree(t[2], memo)
+    elif h == "ite":
+        a, b = _int_degree(t[2], memo), _int_degree(t[3], memo)
+        out = max(a, b, key=lambda x: (x[0] == "np", x[1]))
+    elif h in ("sub", "item", "iter", "citer"):
+        out = _int_degree(t[2] if h in ("iter", "citer") and len(t) > 2 and h == "iter" else t[1], memo) if h != "citer" else _int_degree(t[3], memo)
+        if out[0] == "exact" and out[1] == 0:
+            out = ("np", 1)
+    elif h == "call":
+        f = strip(t[1])
+        name = f[1] if head(f) == "glob" else None
+        if name in _FLOAT_CALLS or (head(f) == "attr" and f[2] in ("mean", "std", "var")):
+            out = ("float", 0)
+        elif name in _EXACT_CALLS or (head(f) == "attr" and f[2] in ("item", "tolist")):
+            out = ("exact", 1)
+        elif name in _THROUGH_CALLS and t[2]:
+            out = _int_degree(t[2][0], memo)
+            if out == ("exact", 0):
+                out = ("np", 1)
+        elif head(f) == "attr" and f[2] in ("sum", "max", "min", "cumsum", "astype", "prod", "dot"):
+            k, d = _int_degree(f[1], memo)
+            out = ("float", 0) if f[2] == "astype" and t[2] and "float" in str(t[2][0]) else (k, max(d, 1))
+    memo[t] = out
+    return out
+
+
+def check_integer_degree(r, rule, functions, modules=("pyrepseq.stats",)):
+    """The count statistics are polynomials in counts.  NumPy integers are 64 bits wide and wrap around silently: a product of four
+    count-sized integer quantities (f1**4, N(N-1)(N-2)(N-3)) passes 2**63 at about 55 000 - an ordinary number of singletons or of sequences -
+    where the float expression the closed form is written in (ratio**4, a quotient of two cubic terms) only rounds.  The value rules compare
+    exact arithmetic, in which the two are equal, so this is checked apart: in the functions of the count-statistics module that a property
+    reaches, no integer-valued subterm multiplies four or more argument-sized quantities.  (Python integers - len(..), int(..), .item() -
+    are unbounded and are not counted unless multiplied into an array value.)  Lint: recognisably wrong whatever surrounds it."""
+    from .rules import where_of
+    from .terms import show, strip_all
+    seen = set()
+    for q in sorted(functions):
+        f = r.P.functions.get(q)
+        if f is None or f.module not in modules:
+            continue
+        try:
+            s = r.A.summary(q)
+        except AnalysisBroken:
+            continue
+        memo = {}
+        pool = [(e, v) for e in s.events for v in e.data.values() if isinstance(v, tuple)] + [(None, s.ret)]
+        for e, v in pool:
+            stack = [v]
+            while stack:
+                x = stack.pop()
+                if not isinstance(x, tuple):
+                    continue
+                if head(x) == "bin":
+                    k, d = _int_degree(x, memo)
+                    if k == "np" and d >= 4:
+                        key = (q, show(strip_all(x), 70))
+                        if key not in seen:
+                            seen.add(key)
+                            node = e.node if e is not None else s.func.node
+                            r.rep.ob(rule, q, False, "count-sized integers are not multiplied four at a time in fixed-width arithmetic", where_of(r.P, s.func, node),
+                                     expected="products of at most three count-sized integer factors, or floating-point / Python-integer arithmetic",
+                                     found=f"{show(x, 90)}: degree {d} in integer quantities; wraps around in 64-bit integers from about 55 000", key=f"integer degree {q.rsplit('.', 1)[1]} {show(strip_all(x), 60)}", lint=True)
+                        continue      # report the outermost such term only
+                stack.extend(y for y in x if isinstance(y, tuple))
